@@ -43,6 +43,11 @@ CHECKS = {
             "Random brace terms from a grammar, ranges over boundary bounds, tilde forms and glob patterns against 5 directory populations, each next to quoted neighbours, executed by the real binary.",
             "reference expander in lib/c12.py; one expansion kind per word; words expanding to an empty word not generated",
             "DESIGN.md 3 C12"),
+    "C11": ("exploration",
+            "runtime monitoring: inner observer vp_out logs one record per run (exactly-once) and emits prepared stdout/stderr/status; outer observer records the resulting word; shell snapshots before/after; step-budget hook for termination",
+            "Random words with 1..3 substitutions in 5 contexts, 8 inner-command kinds and 17 output classes are executed and compared with prefix+output-minus-trailing-newlines+suffix; stderr pass-through, exactly-once and shell state are checked on every run.",
+            "unquoted results compared modulo blank/newline runs",
+            "DESIGN.md 3 C11"),
 }
 
 NOT_YET = "check not built yet (work in progress); runtime monitoring is applicable and planned, see DESIGN.md section 3"
